@@ -113,8 +113,9 @@ def r10_1_cut_report_pairing(repo: Repo, rep: Report):
     chain = longest_if_chain(run, "opcode")
     arms = if_chain(chain)
     last_test, last_body = arms[-1]
-    ok = last_test is None and any(isinstance(s, ast.Raise) and "HalmosException" in src(s) for s in last_body)
-    rep.check("R10.1", ok, m, last_body[0] if last_body else chain, "dispatch else: raise HalmosException('Unsupported opcode ...')", "an unsupported opcode must stop the path with an internal error (stuck -> ERROR)")
+    all_raises = [r for s in last_body for r in ast.walk(s) if isinstance(r, ast.Raise)]
+    ok = last_test is None and bool(all_raises) and all(r.exc is not None and "HalmosException" in src(r.exc) for r in all_raises) and isinstance(last_body[-1], ast.Raise)
+    rep.check("R10.1", ok, m, last_body[0] if last_body else chain, f"dispatch else: every exit is `raise HalmosException(...)` ({len(all_raises)} raise site(s))", "an opcode without an arm must stop the path with an internal error (stuck -> ERROR); any other exception type (InvalidOpcode, ...) turns a not-implemented instruction into an ordinary revert that is silently ignored")
     hs = [h for t in body_walk(run) if isinstance(t, ast.Try) for h in t.handlers if h.type is not None and src(h.type) == "HalmosException"]
     ok = len(hs) == 1 and "ex.halt(data=None, error=err)" in src(hs[0]) and "finalize(ex)" in src(hs[0])
     rep.check("R10.1", ok, m, hs[0] if hs else run, "except HalmosException: ex.halt(data=None, error=err); finalize", "internal errors must end the path as stuck (data=None)")
@@ -174,6 +175,32 @@ def r10_2_loop_logs_reported(repo: Repo, rep: Report):
                 rep.bad("R10.2", mm, c, src(c), "engine constructed outside __main__: its loop log has no reporter")
 
 
+def r10_5_message_identity(repo: Repo, rep: Report):
+    rep.rule("R10.5", "log helpers take the finished message: no lazy %-formatting (the de-duplicating filter keys on the message it is given)")
+    ml = repo.mod("logs")
+    for name in ("debug", "info", "warn", "error", "warn_code", "debug_once"):
+        fn = ml.defs.get(name)
+        if not isinstance(fn, ast.FunctionDef):
+            continue
+        a = fn.args
+        rep.check("R10.5", a.vararg is None and a.kwarg is None, ml, fn, f"logs.{name}({src(a)})", "a log helper that forwards *args lets callers pass a format template: UniqueLoggingFilter then de-duplicates on the template, and every later report of the same kind (other function, other bound) is dropped")
+        for c in body_walk(fn):
+            if isinstance(c, ast.Call) and isinstance(c.func, ast.Attribute) and c.func.attr in ("debug", "info", "warning", "error", "log"):
+                extra = [x for x in c.args[1:] if not (c.func.attr == "log" and x is c.args[1])]
+                rep.check("R10.5", not any(isinstance(x, ast.Starred) for x in c.args) and (len(c.args) <= (2 if c.func.attr == "log" else 1)), ml, c, f"logs.{name}: {src(c)[:80]}", "the logger must receive the finished text only")
+    # call sites: warn / warn_code with more positional arguments than (code,) text
+    n = 0
+    for mm in repo.modules.values():
+        for c in ast.walk(mm.tree):
+            if isinstance(c, ast.Call) and isinstance(c.func, ast.Name) and c.func.id in ("warn", "warn_code", "error", "info"):
+                n += 1
+                limit = 2 if c.func.id == "warn_code" else 1
+                ok = len(c.args) <= limit and not any(isinstance(a, ast.Starred) for a in c.args)
+                if not ok:
+                    rep.bad("R10.5", mm, c, f"{mm.qual(c)}: {src(c)[:110]}", "format arguments passed separately: the message identity used for de-duplication is the template, not the text")
+    rep.ok("R10.5", ml, ml.tree, f"warn/warn_code/error/info call sites examined: {n}")
+
+
 def r10_3_reports_not_deduplicated(repo: Repo, rep: Report):
     rep.rule("R10.3", "cut reports are not routed through the process-wide de-duplicating logger")
     sites = []
@@ -225,4 +252,4 @@ def r10_4_cache_published_before_complete(repo: Repo, rep: Report):
     rep.check("R10.4", ok, mg, gf, "get_frontier returns the cached list when present", "frontier lookup changed")
 
 
-RULES = [r10_1_cut_report_pairing, r10_2_loop_logs_reported, r10_3_reports_not_deduplicated, r10_4_cache_published_before_complete]
+RULES = [r10_5_message_identity, r10_1_cut_report_pairing, r10_2_loop_logs_reported, r10_3_reports_not_deduplicated, r10_4_cache_published_before_complete]
